@@ -19,6 +19,17 @@ import (
 // UserObj is the application object used with the persistent-reference hooks.
 type UserObj struct{ N int }
 
+// Holder / TaggedHolder: application structs that keep a pointer to another application object in a
+// field of pointer type (C18: the encoder must consult PersistentRef for it there too).
+type Holder struct {
+	A any
+	B *UserObj
+}
+type TaggedHolder struct {
+	A any      `pickle:"a"`
+	B *UserObj `pickle:"b"`
+}
+
 var userObjs = map[int]*UserObj{}
 var userObjsMu sync.Mutex // the table is the harness's, not the library's: guarded for the concurrent driver
 
@@ -354,6 +365,27 @@ func (p *parser) value() (any, error) {
 	case 'E': // float32 bits
 		u, err := strconv.ParseUint(body, 16, 32)
 		return math.Float32frombits(uint32(u)), err
+	case 'H', 'h', 'G': // H( v x ): &Holder{v, x}; h( v x ): Holder{v, x}; G( v x ): &TaggedHolder{v, x}  (x = X<n> or Nil)
+		a, err := p.value()
+		if err != nil {
+			return nil, err
+		}
+		b, err := p.value()
+		if err != nil {
+			return nil, err
+		}
+		if p.pos >= len(p.toks) || p.toks[p.pos] != ")" {
+			return nil, fmt.Errorf("bad holder")
+		}
+		p.pos++
+		u, _ := b.(*UserObj)
+		switch t[0] {
+		case 'H':
+			return &Holder{A: a, B: u}, nil
+		case 'h':
+			return Holder{A: a, B: u}, nil
+		}
+		return &TaggedHolder{A: a, B: u}, nil
 	case 'P': // P( v ): pointer to v
 		v, err := p.value()
 		if err != nil {
